@@ -34,6 +34,35 @@ class Jets:
         t = x.t if isinstance(x, Sym) else x
         return Sym(z3.simplify(self._d(_to_real(t), wrt)))
 
+    def at(self, x, var, value):
+        """Evaluate term x at var := value, re-applying sqrt/exp/sin/... to the
+        substituted arguments (function applications are opaque variables whose
+        arguments may depend on var)."""
+        t = x.t if isinstance(x, Sym) else x
+        v = var.t if isinstance(var, Sym) else var
+        val = value.t if isinstance(value, Sym) else (value if z3.is_expr(value) else lift(value).t)
+        val = _to_real(val)
+        return Sym(z3.simplify(self._at(t, v, val, {})))
+
+    def _at(self, t, v, val, memo):
+        k = t.get_id()
+        if k in memo:
+            return memo[k]
+        if z3.is_const(t):
+            if t.eq(v):
+                r = val
+            elif t.decl().kind() == z3.Z3_OP_UNINTERPRETED and self._app_of(t.decl().name()) is not None:
+                f, a = self._app_of(t.decl().name())
+                a2 = z3.simplify(self._at(a, v, val, memo))
+                r = t if a2.eq(z3.simplify(a)) else self.ctx.apply(f, a2)
+            else:
+                r = t
+        else:
+            ch = [self._at(c, v, val, memo) for c in t.children()]
+            r = t.decl()(*ch) if ch else t
+        memo[k] = r
+        return r
+
     def _d(self, t, w):
         key = (t.get_id(), w)
         if key in self.cache:
